@@ -105,14 +105,14 @@ func c15Setup(n int) *c15World {
 //	  member's beacon share; 7 bytes that are not a share
 func (w *c15World) c15Message(tag string) (*model.ConsensusVerifyMessage, int, int) {
 	sender := symx.Choice(tag+".sender", w.n+1)
-	kind := symx.Choice(tag+".kind", 8)
+	kind := symx.Choice(tag+".kind", 9)
 	id, sk := w.outID, w.outSK
 	if sender < w.n {
 		id, sk = w.ids[sender], w.sks[sender]
 	}
 	other := (sender + 1) % w.n
 	bhash := w.bh.Hash
-	dataHash := bhash
+	dataHash, msgHash := bhash, bhash
 	sig := groupsig.Sign(sk, bhash.Bytes())
 	rsig := groupsig.Sign(sk, w.pre.Random)
 	switch kind {
@@ -131,8 +131,14 @@ func (w *c15World) c15Message(tag string) (*model.ConsensusVerifyMessage, int, i
 		rsig = groupsig.Sign(w.sks[other], w.pre.Random)
 	case 7:
 		rsig = *groupsig.DeserializeSign(symx.Bytes(tag+".junk", 64))
+	case 8:
+		// as kind 1, and the message itself names the other hash (it reaches this round through
+		// the party's future-message queue, which is keyed before the party id changes)
+		dataHash = common.BytesToHash(symx.Bytes(tag+".h", 32))
+		sig = groupsig.Sign(sk, dataHash.Bytes())
+		msgHash = dataHash
 	}
-	cvm := &model.ConsensusVerifyMessage{BlockHash: bhash, RandomSign: rsig, Id: tag}
+	cvm := &model.ConsensusVerifyMessage{BlockHash: msgHash, RandomSign: rsig, Id: tag}
 	cvm.SignInfo = model.MakeSignInfo(dataHash, sig, id, 0)
 	return cvm, sender, kind
 }
